@@ -6,6 +6,30 @@ V = os.path.dirname(os.path.dirname(os.path.abspath(__file__)))
 MC = "model_checking"
 CHECKS = {
  # id: (category, technique, text, note, design_ref)
+ "C02": (MC, "exhaustive enumeration of (location, i, n, op) over the constructor-normal clean domain through the real Insert/Embed; denotation oracle + Locate conformance",
+         "Every location of the clean constructor-normal domain over L<=5 (quick, up to 3 parts for L<=4) / L<=6 (thorough, 3 parts for L<=5) x every insertion index x guest lengths 0..3 x {Insert, Embed} is executed on the real API; the result's residues, feature identity/qualifiers, and the denotation (ordered stranded atoms with partial markers) of every location are compared with the list-level reference model; every result is additionally replayed through the implementation's own Region().Locate(). Finite space, fully enumerated: a coverage statement inside the bound.",
+         "Small-scope bound on L and parts; clean domain (disjoint parts, no site inside a multi-part location, markers on outer ends); reference model refmodel.Den; a site exactly at i may land on either side of the guest.",
+         "DESIGN.md §5 C02"),
+ "C03": (MC, "exhaustive enumeration of (location, deletion | window) through the real Delete/Erase/Slice and GenBankFields.Slice; denotation oracle with outer-end marker rule",
+         "Every clean-domain location x every (i,n) with i+n<=L x {Delete, Erase} and x every window s,e in [-L,L] (forward, wrap-around, negative indices) for Slice, with gene-like and source keys; plus every REFERENCE base-range text x every window on a GenBank record. Residues, survival/dropping, base atoms in order and strand, zero-length collapse at the cut, coordinate range, outer-end partial markers and the Locate conformance are judged on every case.",
+         "Small-scope bound (L<=5 quick, <=6 thorough); inner part-end markers unconstrained; empty windows are degenerate and only checked for range; two known findings listed in known_findings.json are classified by trigger+deviation and reported as KNOWN-FINDING.",
+         "DESIGN.md §5 C03"),
+ "C04": (MC, "exhaustive enumeration of (location, rotation sequence) through the real Rotate, judged transition by transition against the rotated denotation",
+         "Every clean-domain location x every n in [-3L,3L] and every pair (a,b) in [-L-1,L+1]^2; each Rotate call is one transition judged against the model applied to the state it started from (so the second step starts from reached, origin-spanning locations); residues, denotation incl. markers, coordinate range and Locate conformance on every transition. Step-wise agreement with an additive model is the additive law.",
+         "L<=5 quick / <=6 thorough; ambiguous spans crossing an origin excluded as in the quantifier; full-length range may stay 1..L; gap 0 == gap L.",
+         "DESIGN.md §5 C04"),
+ "C05": (MC, "exhaustive enumeration of constructor-normal locations of every arity 1..5 through Location.Reverse/Complement and gts.Reverse/Complement/Locate; mirror oracle",
+         "Every constructor-normal location over L<=5 (sites as parts, nested shapes, every arity 1..5 and strand assignment) is reversed and complemented on the real code; the mirrored denotation (order, positions, sites, swapped markers), both involutions, the sequence-level operations and the extraction symmetry extract(f, rec) == extract(f', revcomp(rec)) are judged on every value.",
+         "Small-scope bound; label alphabet ACRKBD (unique complements) so a byte identifies (position,strand); the Between.Reverse off-by-one is test-pinned and listed as a known finding with an exact deviation transform.",
+         "DESIGN.md §5 C05"),
+ "C06": (MC, "exhaustive enumeration of location values, of all token strings up to length k, and of all part lists through String/AsLocation/Join/Order",
+         "(i) every constructor-normal value over 4 residues printed, re-parsed, re-printed and compared by denotation; (ii) every string of <=5 (quick) / <=6 (thorough) tokens over a 14-token location alphabet: accepted strings must print to a fixed point of parse-then-print, nothing may panic; (iii) every list of 1..3 contiguous parts (either strand) through Join and Order: the ordered de-duplicated base atoms are preserved.",
+         "Token alphabet and L=4 bound; AsLocation parses a prefix by design; the test-pinned Ranged+Point(End) reduction is a known finding.",
+         "DESIGN.md §5 C06"),
+ "C10": (MC, "exhaustive enumeration of two-step programs insert;delete / embed;delete / slice*;concat on the real API",
+         "Every (clean location, i, n in 1..3) for insert;delete and embed;delete: residues and the denotation incl. markers are restored. Every cut set of 0..4 positions (0 and L included) x every location of a smaller domain for slice*;concat: residues restored and the fragments of each feature together denote exactly its base atoms on their strands.",
+         "L<=5 (inverse) / L<=6 (cuts) quick; fragments compared as multisets of (position,strand).",
+         "DESIGN.md §5 C10"),
  "C09": (MC, "exhaustive enumeration of all segment lists (bounded) through the real Minimize/Invert*, partition oracle",
          "Every list of 1..3 (quick) / 1..4 (thorough) directed or zero-length segments over 7 coordinates, flat and in nested/complemented Regions shapes, is pushed through the real Minimize, InvertLinear and InvertCircular and judged by a position-counting partition oracle; the space is finite and fully enumerated, so inside the bound the result is a coverage statement, not a sample.",
          "Bound n=6 positions (plus n=1..3 fully); regions inside [0,n]; at least one region. Oracle is position counting written independently of region.go.",
